@@ -16,8 +16,8 @@
 // does not panic) AND by the rules (fold iff facing a bet, check iff not, call = outstanding <
 // stack, all-in = stack, outstanding + max(last raise, BB) <= raise <= stack - 1), raise entries
 // monotone in their odds (all-in counts as the stack), snapping: exact pot fraction >= stack =>
-// all-in, <= minimum raise => minimum raise, otherwise the pot fraction rounded down or up to a
-// chip; the menu packs and unpacks unchanged. Edges: u8 / u64 round trips over all 15 symbols,
+// all-in, <= minimum raise => minimum raise, otherwise the pot fraction truncated to whole chips
+// (clamped); the menu packs and unpacks unchanged. Edges: u8 / u64 round trips over all 15 symbols,
 // distinct codes; random sequences of length 0..=16 round-trip and distinct sequences get distinct
 // words; length 17..=20 must be rejected. Odds tables: lowest terms, strictly sorted, every
 // per-street odds has a u8 code (no `expect("invalid odds value")`). Float: the product of
@@ -240,7 +240,8 @@ fn check_state(cx: &mut Ctx, name: &str, g: &Game, rules: &Rules) {
         Turn::Chance => {
             // not a decision: the menu is the single chance edge
             for n in [0usize, 5] {
-                let m = g.choices(n);
+                let gg = *g;
+                let m = catch(move || gg.choices(n)).unwrap_or_default();
                 cx.run.evaluations += 1;
                 if m != vec![Edge::Draw] {
                     cx.run.fail("chance-menu", name, "[Draw]", &format!("{m:?}"));
@@ -350,18 +351,18 @@ fn check_state(cx: &mut Ctx, name: &str, g: &Game, rules: &Rules) {
                     if c >= stack as i64 { Action::Shove(stack as i16) } else if c <= minr as i64 { Action::Raise(minr as i16) } else { Action::Raise(c as i16) }
                 };
                 let lo = div_floor(pot * num, den);
-                let hi = -div_floor(-pot * num, den);
                 let (class, ok) = if pot * num >= stack as i64 * den {
                     ("allin", a == Action::Shove(stack as i16))
                 } else if pot * num <= minr as i64 * den {
                     ("min", a == Action::Raise(minr as i16))
                 } else {
-                    ("range", a == clamp(lo) || a == clamp(hi))
+                    // in range: the pot fraction truncated to whole chips ("float-to-chip truncation")
+                    ("range", a == clamp(lo))
                 };
                 cx.run.count(&format!("raise-entry:snap-{class}"));
                 if !ok {
                     cx.run.fail(&format!("snap-{class}"), &format!("{at} | {e:?} pot {pot} stack {stack} min raise {minr}"),
-                        &match class { "allin" => format!("s{stack}"), "min" => format!("r{minr}"), _ => format!("{} or {}", act_tok(&clamp(lo)), act_tok(&clamp(hi))) }, &act_tok(&a));
+                        &match class { "allin" => format!("s{stack}"), "min" => format!("r{minr}"), _ => act_tok(&clamp(lo)) }, &act_tok(&a));
                 }
             }
         }
@@ -406,7 +407,7 @@ fn visit(cx: &mut Ctx, deal: &Deal, hist: &[Action], g: &Game, rules: &Rules, li
 
 /// every state reachable under the abstraction: from the root, follow actionize of every entry of
 /// choices(n) with n = aggressive edges of the current betting round; chance nodes deal the forced cards
-fn abstraction_bfs(cx: &mut Ctx, deal: &Deal, line_every: u64) {
+fn abstraction_bfs(cx: &mut Ctx, deal: &Deal, line_every: u64, pinned_counter: bool) {
     struct Node {
         g: Game,
         rules: Rules,
@@ -437,12 +438,14 @@ fn abstraction_bfs(cx: &mut Ctx, deal: &Deal, line_every: u64) {
             Turn::Terminal => terminals += 1,
             Turn::Chance => {
                 chances += 1;
-                kids.push((Action::Draw(hand(deal.streets[g.street() as isize as usize])), 0));
+                // the counter restarts with the betting round (pinned tree: it kept the pre-flop count for ever)
+                kids.push((Action::Draw(hand(deal.streets[g.street() as isize as usize])), if pinned_counter { n } else { 0 }));
             }
             Turn::Choice(_) => {
                 decisions += 1;
-                for e in g.choices(n) {
-                    let aggro = matches!(e, Edge::Raise(_) | Edge::Shove);
+                let gg = g;
+                for e in catch(move || gg.choices(n)).unwrap_or_default() {
+                    let aggro = matches!(e, Edge::Raise(_) | Edge::Shove) && !(pinned_counter && g.street() as isize != 0);
                     let (gg, ee) = (g, e);
                     if let Some(a) = catch(move || gg.actionize(&ee)) {
                         kids.push((a, n + aggro as usize));
@@ -473,6 +476,12 @@ fn abstraction_bfs(cx: &mut Ctx, deal: &Deal, line_every: u64) {
                 queue.push_back(nodes.len() as u32 - 1);
             }
         }
+    }
+    if pinned_counter {
+        cx.run.notes.push(format!(
+            "for comparison only: with the raise counter of the tree pinned before the C10 repair (pre-flop aggressive edges counted on every street) the same search gives {} (betting state, raise count) nodes = {} distinct betting states",
+            nodes.len(), games.len()));
+        return;
     }
     cx.run.count_n("abstraction:nodes(state,raise-count)", nodes.len() as u64);
     cx.run.count_n("abstraction:distinct-betting-states", games.len() as u64);
@@ -525,7 +534,14 @@ fn full_bfs(cx: &mut Ctx, deal: &Deal) {
             Turn::Choice(p) => (p, menu(&g)),
         };
         for a in kids {
-            let child = g.apply(a);
+            let gg = g;
+            let child = match catch(move || gg.apply(a)) {
+                Some(c) => c,
+                None => {
+                    cx.run.fail("legal-action-panics", &format!("bfs#{id} then {}", act_tok(&a)), "a state", "panic");
+                    continue;
+                }
+            };
             if seen.insert(betting_key(&child)) {
                 parents.push((id, Some(a)));
                 queue.push_back((parents.len() as u32 - 1, child, rules.apply(p, &a)));
@@ -575,6 +591,30 @@ fn main() {
             }
         }
         cx.run.count(&format!("odds-table:{name}:{}", t.len()));
+    }
+
+    // ---- states: reachable under the abstraction, then random walks
+    abstraction_bfs(&mut cx, &deals[0], 1, false);
+    abstraction_bfs(&mut cx, &deals[0], 1, true);
+    for h in 0..n_hist {
+        let deal = &deals[h % deals.len()];
+        let style = (h / deals.len()) as u64 % 5;
+        // the walk applies the engine's own legal() actions; a panic there is an engine defect
+        let walked = {
+            let mut r2 = rng.fork();
+            std::panic::catch_unwind(std::panic::AssertUnwindSafe(|| random_history(&mut r2, deal, style))).ok()
+        };
+        let (hist, states) = match walked {
+            Some(w) => w,
+            None => {
+                cx.run.fail("walk-panics", &format!("random history #{h} (style {style}) over legal() of the real engine"), "no panic", "panic");
+                continue;
+            }
+        };
+        let rules = rules_after(&states, &hist);
+        for i in 0..=hist.len() {
+            visit(&mut cx, deal, &hist[..i], &states[i], &rules[i], if a.thorough() { 4 } else { 1 });
+        }
     }
 
     // ---- the f32 product of actionize: every pot x every grid odds (exhaustive)
@@ -673,17 +713,6 @@ fn main() {
         }
     }
 
-    // ---- states: reachable under the abstraction, then random walks
-    abstraction_bfs(&mut cx, &deals[0], 1);
-    for h in 0..n_hist {
-        let deal = &deals[h % deals.len()];
-        let style = (h / deals.len()) as u64 % 5;
-        let (hist, states) = random_history(&mut rng, deal, style);
-        let rules = rules_after(&states, &hist);
-        for i in 0..=hist.len() {
-            visit(&mut cx, deal, &hist[..i], &states[i], &rules[i], if a.thorough() { 4 } else { 1 });
-        }
-    }
     cx.run.exhaustive = false;
     if a.thorough() {
         full_bfs(&mut cx, &deals[0]);
